@@ -100,10 +100,24 @@ def _res_inputs():
 
 def _es_inputs():
     from pyunicorn.eventseries import EventSeries
-    d = np.array([families.SERIES, families.SERIES_Y, families.SERIES[::-1], np.roll(families.SERIES_Y, 3)]).T
-    ev = V((d > 0.4).astype(int))
-    ts = V(np.arange(len(d)).astype(float))
-    return EventSeries(ev, timestamps=ts, taumax=3.0, lag=1.0), {"events": ev, "timestamps": ts}
+    ev = V(_es_events())
+    ts = V(np.arange(len(ev)).astype(float))
+    return EventSeries(ev, timestamps=ts, taumax=3.0, lag=0.0), {"events": ev, "timestamps": ts}
+
+
+def _es_events():
+    """Four event series of 40 steps: the second follows the first by one step, the third by two steps
+    (not always), the fourth is unrelated - the directed ES / ECA matrices are NOT symmetric."""
+    ev = np.zeros((40, 4), dtype=int)
+    for t in (3, 10, 17, 25, 33):
+        ev[t, 0] = 1
+        ev[t + 1, 1] = 1
+    for t in (3, 10, 25):
+        ev[t + 2, 2] = 1
+    for t in (6, 14, 21, 30, 37):
+        ev[t, 3] = 1
+    ev[20, 2] = 1
+    return ev
 
 
 def _es_calls(obj):
@@ -395,7 +409,7 @@ def _rebuild(target, inputs):
         return ResNetwork(inputs["resistances"], **kw)
     if target == "eventseries":
         from pyunicorn.eventseries import EventSeries
-        return EventSeries(inputs["events"], timestamps=inputs["timestamps"], taumax=3.0, lag=1.0)
+        return EventSeries(inputs["events"], timestamps=inputs["timestamps"], taumax=3.0, lag=0.0)
     return None
 
 
